@@ -185,6 +185,26 @@ def judge(ctx, c, case):
         ctx.violation(mech, dict(detail, fmt=c['fmt']), case)
     if problems:
         return
+    if len(c['fmt']) % 4 == 1 and not c.get('shape'):
+        # a new format that names a field the records do not have is refused - whatever else it says (here: record
+        # limits) has no effect, the table prints as before
+        try:
+            t.set_fmt("a,no_such_field;1:0")
+            ctx.violation("format-with-unknown-field-accepted", {"fmt": "a,no_such_field;1:0"}, case)
+            return
+        except (ValueError, KeyError):
+            ctx.count("formats_with_an_unknown_field_refused")
+        except Exception as err:
+            ctx.violation("table-raises", {"type": type(err).__name__, "msg": str(err)[:200], "step": "refused format"}, case)
+            return
+        try:
+            again = T.render(t).split("\n")
+        except Exception as err:
+            ctx.violation("table-raises", {"type": type(err).__name__, "msg": str(err)[:200], "step": "after a refused format"}, case)
+            return
+        if again != lines:
+            ctx.violation("refused-format-changed-the-table", {"before": lines[:6], "after": again[:6]}, case)
+            return
     # ---- the table stays what it is while other tables are built from its format object
     step = c.get('later')
     if step == 'derive':
